@@ -13,6 +13,9 @@ since the last reset (post-selected measurements fix all outcomes, so feed-forwa
   untouched       deep snapshot of every user Program before == after compile / run / failed run / refused run (ignoring what the
                   docs say changes: lock, RegRef.val, values bound to free parameters); re-running the same object on a fresh
                   engine gives the same state; compile() returns a different Program object
+
+Sub-check `continuation_del`: A; B = Program(A) that deletes a subsystem inherited from A [; C = Program(B)]: one list, successive calls and
+the concatenated single program give refsim's reduced state of the remaining modes, and writing or running B leaves A untouched.
 """
 from __future__ import annotations
 
